@@ -68,9 +68,12 @@ theorem C14_len (n : Nat) :
 theorem C14_rejects_overflow (b : Bytes) (n : Nat) (r : Bytes) (h : varint b = some (n, r)) : n < 2^64 :=
   varint_lt b n r h
 
-/-- a non-minimal spelling (the canonical string of `n` with its last byte given a continuation bit and one or more
-zero groups appended) is rejected -/
-theorem C14_rejects_nonminimal (b : Bytes) (n : Nat) (r : Bytes) (h : varint b = some (n, r)) :
+/-- whatever is ACCEPTED, the consumed prefix is the canonical string of the returned value (a statement about accepted
+inputs: it has an acceptance hypothesis and no `= none`; it excludes a second accepted spelling of `n` only through
+`C14_injective`. The direct rejection statements — a superfluous zero group, the padded spellings, values `≥ 2^64`,
+strings without terminator — are `C14_rejects_zero_group`, `C14_rejects_padded`, `C14_rejects_ge_2_64`,
+`C14_rejects_unterminated` below). Formerly named `C14_rejects_nonminimal`. -/
+theorem C14_consumed_is_canonical (b : Bytes) (n : Nat) (r : Bytes) (h : varint b = some (n, r)) :
     b.take (b.length - r.length) = Spec.leb128 n := by
   obtain ⟨_, rfl⟩ := (C14_dec_iff b n r).1 h
   simp
@@ -113,7 +116,11 @@ theorem C14_rejects_truncated (n : Nat) (k : Nat) (hk : k < (Spec.leb128 n).leng
               exact ih (n / 128) (by omega) (m / 128) k r (by omega) he.2
     exact key n m k r hk hb
 
-/-- the decoder reads no byte beyond the terminating one: the result is a function of the consumed prefix alone -/
+/-- no over-read, extensional form, ACCEPTED inputs only: the result is a function of the consumed prefix alone (replace
+what follows it by any `t`: same value, rest `t`). In a model `Bytes → Option (Nat × Bytes)` the rest is a suffix by
+construction, so this is a corollary of `C14_dec_iff` and says nothing about failing inputs; for failures (how far
+the reader got, and that the failure does not depend on the bytes after that position) see `C14_no_overread_err`
+and `C14_varintE_cases`; the reader position of the real decoder is observed by the harness (`varint_decx`). -/
 theorem C14_no_overread (b : Bytes) (n : Nat) (r : Bytes) (h : varint b = some (n, r)) (t : Bytes) :
     varint (b.take (b.length - r.length) ++ t) = some (n, t) := by
   obtain ⟨hn, rfl⟩ := (C14_dec_iff b n r).1 h
@@ -124,9 +131,11 @@ theorem C14_no_overread (b : Bytes) (n : Nat) (r : Bytes) (h : varint b = some (
 theorem C14_injective (b b' : Bytes) (n : Nat) (r r' : Bytes)
     (h : varint b = some (n, r)) (h' : varint b' = some (n, r')) :
     b.take (b.length - r.length) = b'.take (b'.length - r'.length) := by
-  rw [C14_rejects_nonminimal b n r h, C14_rejects_nonminimal b' n r' h']
+  rw [C14_consumed_is_canonical b n r h, C14_consumed_is_canonical b' n r' h']
 
-/-- the executable reference acceptance test used by the oracle agrees with the model on every input -/
+/-- soundness direction only of the executable reference acceptance test used by the oracle: what it accepts, the
+model accepts with the same value and consumed count (a test that accepts nothing would satisfy this statement; both
+directions: `C14_spec_accept_iff`, rejection: `C14_spec_accept_none`) -/
 theorem C14_spec_accept_sound (b : Bytes) (n k : Nat) (h : Spec.leb128Accept b = some (n, k)) :
     varint b = some (n, b.drop k) := by
   unfold Spec.leb128Accept at h
@@ -143,9 +152,8 @@ theorem C14_spec_accept_sound (b : Bytes) (n k : Nat) (h : Spec.leb128Accept b =
     · simp at h
 
 /-! ## Audit round: the spec tied to an independent valuation, the oracle verified in both directions, direct rejection
-theorems. (`C14_rejects_nonminimal` above keeps its historical name; what it states is "the consumed prefix is
-canonical" — see `C14_consumed_is_canonical`; the direct rejection of a superfluous zero group is
-`C14_rejects_zero_group`.) -/
+theorems. (The former `C14_rejects_nonminimal` is now `C14_consumed_is_canonical` above — it speaks about accepted
+strings; the direct rejection of a superfluous zero group is `C14_rejects_zero_group`.) -/
 
 /-- clause (a/b), value: `leb128 n` read as base-128 groups (low 7 bits of each byte, least significant first, up to
 the first byte without continuation bit — `Spec.readGroups`, which never looks at `leb128`) has value `n`
@@ -223,11 +231,6 @@ theorem C14_spec_accept_none (b : Bytes) : Spec.leb128Accept b = none ↔ varint
       obtain ⟨r, hv, _⟩ := (C14_spec_accept_iff b n k).1 hs
       rw [h] at hv; simp at hv
 
-/-- what `C14_rejects_nonminimal` states, under an accurate name: whatever is accepted, the consumed prefix is the
-canonical string of the returned value -/
-theorem C14_consumed_is_canonical (b : Bytes) (n : Nat) (r : Bytes) (h : varint b = some (n, r)) :
-    b.take (b.length - r.length) = Spec.leb128 n := C14_rejects_nonminimal b n r h
-
 /-- clause (f), direct: a zero byte after one or more continuation bytes (a superfluous most-significant zero group)
 is rejected, whatever the continuation bytes are and whatever follows -/
 theorem C14_rejects_zero_group (p r : Bytes) (hp : p ≠ []) (hc : ∀ x ∈ p, 128 ≤ x.toNat) :
@@ -282,7 +285,9 @@ theorem C14_collect_nonempty (b : Bytes) (gs : List Nat) (r : Bytes) (h : collec
 theorem C14_varintE_refines (b : Bytes) : (varintE b).toOption = varint b := VarIntErr.varintE_toOption b
 
 /-- complete description of the decoder on EVERY byte string (rejected ones included — clause "reads no byte beyond
-the terminator" for failures): exactly one of
+the terminator" for failures): one of the following four holds (this statement is the plain disjunction; the four are
+mutually exclusive because each fixes `varintE b` to a different constructor / kind — `C14_varintE_exclusive`, and the
+three `C14_err_*_iff` below characterise each failure kind exactly)
 * `b = leb128 n ++ r`, `n < 2^64`: accepted with value `n`, rest `r`;
 * `b = leb128 n ++ r`, `n ≥ 2^64`: overflow, reported after reading exactly `leb128 n` (never a byte of `r`);
 * `b = p ++ 0 :: r`, `p` non-empty continuation bytes: zero-rule failure after reading exactly `p` and the zero byte;
@@ -331,6 +336,59 @@ theorem C14_err_overflow_iff (b : Bytes) (k : Nat) :
       rw [e] at h <;> simp at h
     exact ⟨n, r, hn, hb, h.symm⟩
   · rintro ⟨n, r, hn, rfl, rfl⟩; exact VarIntErr.varintE_overflow n r hn
+
+/-- the four shapes of `C14_varintE_cases` exclude one another as properties of the byte string alone (no mention of
+the decoder in the statement): a string that starts with a canonical string `leb128 n` neither starts with continuation
+bytes followed by a zero byte nor consists of continuation bytes only, the last two exclude each other, and
+`n < 2^64` / `2^64 ≤ n` are decided by the string because `leb128` is a prefix code. Hence "exactly one". -/
+theorem C14_varintE_exclusive (b : Bytes) :
+    (∀ n r p r', b = Spec.leb128 n ++ r → p ≠ [] → (∀ x ∈ p, 128 ≤ x.toNat) → b ≠ p ++ 0 :: r') ∧
+    (∀ n r, b = Spec.leb128 n ++ r → ¬ ∀ x ∈ b, 128 ≤ x.toNat) ∧
+    (∀ p r', b = p ++ 0 :: r' → ¬ ∀ x ∈ b, 128 ≤ x.toNat) ∧
+    (∀ n r m r', b = Spec.leb128 n ++ r → b = Spec.leb128 m ++ r' → n = m ∧ r = r') := by
+  refine ⟨?_, ?_, ?_, ?_⟩
+  · rintro n r p r' rfl hp hc he
+    have hz := VarIntErr.varintE_zero p r' hp hc
+    rw [← he] at hz
+    by_cases hn : n < 2^64
+    · rw [VarIntErr.varintE_ok n r hn] at hz; simp at hz
+    · rw [VarIntErr.varintE_overflow n r (by omega)] at hz; simp at hz
+  · rintro n r rfl hc
+    have hz := VarIntErr.varintE_eof _ hc
+    by_cases hn : n < 2^64
+    · rw [VarIntErr.varintE_ok n r hn] at hz; simp at hz
+    · rw [VarIntErr.varintE_overflow n r (by omega)] at hz; simp at hz
+  · rintro p r' rfl hc
+    have := hc 0 (by simp)
+    simp at this
+  · rintro n r m r' rfl he
+    exact C14_leb128_injective n m r r' he
+
+/-- no over-read, FAILING inputs: a failure reported at reader position `k` has read at most the input (`k ≤ |b|`,
+and an end-of-input failure has read exactly all of it), and a zero-rule or overflow failure is a function of the
+`k` bytes read alone — replace everything after them by any `t`: same kind, same position. (The accepted case is
+`C14_no_overread`.) -/
+theorem C14_no_overread_err (b : Bytes) (e : VErr) (k : Nat) (h : varintE b = .error (e, k)) :
+    k ≤ b.length ∧ (e = .eof → k = b.length) ∧
+    (e ≠ .eof → ∀ t : Bytes, varintE (b.take k ++ t) = .error (e, k)) := by
+  cases e with
+  | eof =>
+    obtain ⟨_, rfl⟩ := (C14_err_eof_iff b k).1 h
+    exact ⟨Nat.le_refl _, fun _ => rfl, fun hne => absurd rfl hne⟩
+  | zero =>
+    obtain ⟨p, r, hp, hc, rfl, rfl⟩ := (C14_err_zero_iff b k).1 h
+    refine ⟨by simp, fun he => (by cases he), fun _ t => ?_⟩
+    have e1 : (p ++ 0 :: r).take (p.length + 1) = p ++ [0] := by
+      have e2 : p ++ 0 :: r = (p ++ [0]) ++ r := by simp
+      rw [e2]; exact List.take_left' (by simp)
+    rw [e1, List.append_assoc]
+    exact VarIntErr.varintE_zero p t hp hc
+  | overflow =>
+    obtain ⟨n, r, hn, rfl, rfl⟩ := (C14_err_overflow_iff b k).1 h
+    refine ⟨by simp, fun he => (by cases he), fun _ t => ?_⟩
+    rw [List.take_left']
+    · exact VarIntErr.varintE_overflow n t hn
+    · rfl
 
 /-- the reference classification printed by the driver as the oracle of `varint_decx` (truncated / non-minimal / too
 big / ok, with the number of bytes needed) agrees with the model on every input -/
@@ -403,5 +461,12 @@ example : varintE [0x81, 0x00, 0x55] = .error (.zero, 2) := by rfl
 example : varintE (List.replicate 9 0xff ++ [0x02, 0x55]) = .error (.overflow, 10) := by rfl
 example : varintE [0xac, 0x02, 0x77] = .ok (300, [0x77]) := by rfl
 example : varintExact [0xac, 0x02] = some 300 ∧ varintExact [0xac, 0x02, 0x77] = none := by decide
+/- hypotheses of `C14_no_overread_err` / `C14_varintE_exclusive` are met: a zero-rule failure two bytes in, an overflow
+failure ten bytes in (both followed by bytes that are never read), a string of two of the shapes' building blocks -/
+example : varintE [0x81, 0x00, 0x55, 0x66] = .error (.zero, 2) ∧ ([0x81, 0x00, 0x55, 0x66] : Bytes).take 2 = [0x81, 0x00] := by
+  constructor <;> rfl
+example : varintE (List.replicate 9 0x80 ++ [0x02, 0x55]) = .error (.overflow, 10) := by rfl
+example : ([0xac, 0x02, 0x77] : Bytes) = Spec.leb128 300 ++ [0x77] := by
+  rw [Spec.leb128, Spec.leb128]; decide
 
 end C14
